@@ -118,6 +118,15 @@ def predictInPlaceL (m : POMDP) (a : Nat) : Nat → List Rat → List Rat
     let st' := predictInPlaceL m a n st
     st'.set n (predictCellInPlace m a (fun i => st'.getD i 0) n m.S)
 
+/-- the pointer overload of `updateBeliefUnnormalized`, loop branch, as a function of whether the source carries
+    the alias guard (`Gen.BeliefSrc.aliasGuard_updateBeliefUnnormalizedPtr`) and whether the call is in place:
+    guarded code copies the input and runs the ordinary loop on the copy -/
+def unnormPtrG (guard aliased : Bool) (m : POMDP) (b : Vec) (a o : Nat) : Vec :=
+  if aliased && !guard then unnormInPlaceG m b a o m.S else unnormG m b a o
+
+def predictPtrG (guard aliased : Bool) (m : POMDP) (b : Vec) (a : Nat) : Vec :=
+  if aliased && !guard then predictInPlaceG m b a m.S else predictG m b a
+
 /-- the Eigen branch on a SPARSE model called in place: assigning a sparse expression to a dense vector
     clears the destination first (`dst.setZero()`) and then adds the stored entries, so with `br` aliasing `b`
     the factor `b` is already zero when `O_a.col(o).cwiseProduct(…b…)` is evaluated
